@@ -16,6 +16,7 @@
 import HtpModel.Lemmas.Decode
 import HtpModel.Lemmas.Segment
 import HtpModel.Lemmas.CursorInv
+import HtpModel.Lemmas.BufInv
 
 namespace Htp.C01
 open Htp Htp.Conn Htp.Gen Htp.Decode
@@ -99,5 +100,14 @@ example :
     let c : Conn := reqStoreChunk (some (b!"GET /")) 5 { inState := .line }
     WFCur c.inn ∧ (reqStateFn {} c).1.inn.read = 5 := by
   refine ⟨wf_reqStoreChunk _ _ (by decide), by decide⟩
+
+/-- **C01 (the cursors stay inside the chunk, whole loop of a request data call)**: from the well-formed chunk a data call stores, the loop of
+    htp_connp_req_data - any number of passes, any state functions, any callback policy - returns with 0 <= consume <= read <= len <= |chunk|,
+    provided no pass finds a negative amount owed in a counted body state (`CallReach` names the states the loop passes through). -/
+theorem C01_req_call_cursors_in_chunk (cfg : Cfg) (fuel : Nat) (d : Bytes) (c : Conn) (hs : (d.length : Int) < 18446744073709551616)
+    (hb : inBufLen c ≤ cfg.fieldLimitHard)
+    (ho : ∀ c', CallReach cfg (reqStoreChunk (some d) d.length c) c' → OwedOK c') :
+    WFCur (reqDriverLoop cfg false fuel (reqStoreChunk (some d) d.length c)).1.inn :=
+  (reqDriverLoop_wfb cfg fuel _ _ CallReach.start ⟨wf_reqStoreChunk d c hs, hb⟩ ho).1
 
 end Htp.C01
